@@ -274,6 +274,22 @@ class ExprMixin:
             raise Unsupported("string arithmetic")
         if l.t[0] == "bool" and r.t[0] == "bool" and isinstance(op, (ast.BitOr, ast.BitAnd)):
             return V(("bool",), z3.Or(l.z, r.z) if isinstance(op, ast.BitOr) else z3.And(l.z, r.z))
+        if isinstance(op, (ast.Mult, ast.Add, ast.Sub)) and self.ctx.float_mode != "fp" and not self.spec_mode and \
+                ((l.t[0] == "nd" and l.t[1][0] == "float" and r.t[0] in ("int", "float")) or
+                 (r.t[0] == "nd" and r.t[1][0] == "float" and l.t[0] in ("int", "float"))):
+            # numpy broadcasting: scalar <op> ndarray is the fresh array of the element-wise results (AX_numpy_arith_elementwise)
+            self.ctx.tags.add("AX_numpy_arith_elementwise")
+            arr, left_is_arr = (l, True) if l.t[0] == "nd" else (r, False)
+            other = r if left_is_arr else l
+            k = z3.Int(self.ctx.fresh_name("bk"))
+            elem = V(("float",), st.seq_elems(arr)[k])
+            ca = getattr(self.ctx, "const_arrays", {}).get(arr.z.get_id())
+            if ca is not None and not self.feasible(st, st.seq_elems(arr) != z3.K(z3.IntSort(), z3.RealVal(ca[0]))):
+                elem = V(("float",), z3.RealVal(ca[0]))        # np.zeros / np.ones used directly: every element is the constant
+            body = self.binop(st, op, elem, other, node) if left_is_arr else self.binop(st, op, other, elem, node)
+            bz = st.to_float(body).z
+            K = self.keys_array(st, "bcarith:" + z3.substitute(bz, (k, z3.Int("ki"))).sexpr(), lambda x: z3.substitute(bz, (k, x)), bz.sort())
+            return st.new_seq(("float",), "nd", st.seq_len(arr), K, "bcarith")
         l = self.num(st, l, node)
         r = self.num(st, r, node)
         if l.t[0] == "int" and r.t[0] == "int" and not isinstance(op, ast.Div):
@@ -316,8 +332,8 @@ class ExprMixin:
         if isinstance(op, ast.Sub):
             return V(("float",), lf.z - rf.z)
         if isinstance(op, ast.Mult):
-            if z3.is_rational_value(lf.z) or z3.is_rational_value(rf.z):
-                return V(("float",), lf.z * rf.z)
+            if z3.is_rational_value(z3.simplify(lf.z)) or z3.is_rational_value(z3.simplify(rf.z)):
+                return V(("float",), lf.z * rf.z)       # a constant (possibly written as a constant expression) times a float
             return V(("float",), self.ufun("fmul", [lf.z, rf.z], z3.RealSort()))
         if isinstance(op, ast.Div):
             self.safety(st, rf.z != 0, "div-zero", node)
